@@ -329,6 +329,20 @@ class Interp:
             check_global_write(self, self_obj, f"call of .{name}()")
         if all_concrete(args) and all_concrete(kwargs):
             return self.native(fn, args, kwargs)
+        # host containers may hold symbolic values: methods that neither hash nor compare their arguments
+        if type(self_obj) is list and name in ("append", "insert", "pop", "copy", "reverse", "clear"):
+            return self.native(fn, args, kwargs)
+        if type(self_obj) is list and name == "extend":
+            other = self.resolve(args[0])
+            if isinstance(other, GenObj):
+                other = other.expand()
+            if isinstance(other, (list, tuple)):
+                return self.native(fn, [other], {})
+            raise OutsideSubset("list.extend of a concrete list with a symbolic sequence")
+        if type(self_obj) is dict and (name in ("items", "keys", "values", "copy") or (name in ("update", "setdefault", "__setitem__", "pop") and all_concrete(args[:1]) and all(isinstance(k, str) for k in kwargs))):
+            if name == "update" and args and not isinstance(args[0], dict):
+                raise OutsideSubset("dict.update with a non-dict")
+            return self.native(fn, args, kwargs)
         raise OutsideSubset(f"no model for call of {getattr(fn, '__qualname__', fn)!r} with symbolic arguments")
 
     def native(self, fn, args, kwargs):
